@@ -135,13 +135,14 @@ Theorem last_modified_echo_fractional_partial :
     = (st, Some (Resp (full_resp h tps max_age (info_of_entry e) (e_body e)))).
 Proof. exact step_ims_echo_fractional. Qed.
 
-(* Dates from 1970 to 9999 are read as written: the "+2000" rule of parse_httpdate only concerns years below 1970
-   (for those, sound_304 speaks about the shifted date). *)
-Theorem modern_dates_read_as_written :
+(* Every date with a year from 1 to 9999 is read as written (the "+2000 for years below 1970" rule is repaired,
+   C20-L4), so sound_304 speaks about the date the client sent ... *)
+Theorem dates_read_as_written :
   forall y mo d hh mi ss,
-    1970 <= y <= 9999 -> 1 <= mo <= 12 ->
+    1 <= y <= 9999 -> 1 <= mo <= 12 ->
     parse_httpdate (ImsDate y mo d hh mi ss) = PSome (timegm y mo d hh mi ss).
-Proof. exact parse_modern. Qed.
+Proof. exact parse_as_written. Qed.
+
 
 (* Requests that find the stored tile stale (refresh rule, single-tile path): when the source answers, the tile is
    stored again ... *)
@@ -179,3 +180,25 @@ Theorem refresh_answer_sound :
     inm = Some (etag_of h {| ti_cacheable := true; ti_ts := Some now; ti_size := Some size |}) \/
     exists t, st_ticks now <> 0 /\ parse_httpdate ims = PSome t /\ st_ticks now <= t * tps.
 Proof. exact refresh_answer_sound_304. Qed.
+
+(* A request that loaded the tile and then waited for the tile lock while other requests / writers ran answers with
+   the validators and bytes of what is stored when it gets the lock (200 + stored bytes or 304 + no body), whatever it
+   had loaded before: the re-check under the lock re-reads the metadata. *)
+Theorem waiter_answers_for_current_store :
+  forall h tps max_age st_loaded mid svc k inm ims up e_now st' r,
+    lookup (fst (run h tps max_age st_loaded mid)) k = Some e_now ->
+    waiter h tps max_age st_loaded mid (Req svc k inm ims up) = (st', Some (Resp r)) ->
+    st' = fst (run h tps max_age st_loaded mid) /\
+    (r_etag r = Some (etag_of_entry h e_now) /\ r_lastmod r = lastmod_of_entry tps e_now /\ r_nostore r = false /\
+     ((r_status r = 200 /\ r_body r = Some (e_body e_now)) \/
+      (r_status r = 304 /\ r_body r = None /\ r_ctype r = false))).
+Proof. exact waiter_current. Qed.
+
+(* Why the property is stated for backends WITH timestamps: with the constant timestamp -1 of mbtiles / geopackage
+   caches a rewrite of equal size is invisible to the validators and the old ETag is answered 304. *)
+Theorem timestampless_backend_rewrite_unseen_refuted :
+  exists h tps max_age k e e' r,
+    e_ts e = e_ts e' /\ e_size e = e_size e' /\ e_body e <> e_body e' /\
+    step h tps max_age [(k, e')] (Req TMS k (Some (etag_of_entry h e)) ImsAbsent UErr) = ([(k, e')], Some (Resp r)) /\
+    r_status r = 304.
+Proof. exact timestampless_rewrite_unseen. Qed.
